@@ -4,6 +4,8 @@ import (
 	"bytes"
 	"fmt"
 	"io"
+	"sort"
+	"strings"
 
 	"github.com/EliCDavis/polyform/formats/gltf"
 
@@ -59,7 +61,7 @@ func (k checker) saveOver(seq []int, glb bool) {
 		k.c.HarnessError("in-memory write failed: %v", err)
 		return
 	}
-	if !bytes.Equal(got, want.Bytes()) {
+	if !bytes.Equal(normExt(got), normExt(want.Bytes())) {
 		k.c.Eval(scope, "mismatch")
 		fail(fmt.Sprintf("after the saves %v to one path the file holds %d bytes, the last scene alone writes %d (or other content)", seq, len(got), want.Len()))
 		return
@@ -82,6 +84,7 @@ func (k checker) afterFailedWrite(glb bool) {
 		if it == 0 {
 			sc = Build(big)
 		}
+		// (the small scene uses no extension, so its document is the same bytes on every write)
 		if glb {
 			return gltf.WriteBinary(sc, w)
 		}
@@ -94,4 +97,27 @@ func (k checker) afterFailedWrite(glb bool) {
 		return
 	}
 	k.c.Eval(scope, "ok")
+}
+
+// normExt sorts the entries of the extensionsUsed / extensionsRequired arrays inside a document (text
+// or GLB: the arrays are plain text either way and sorting keeps every length).  The writer collects
+// extension names in a map, so their order differs from one write to the next; glTF gives that order
+// no meaning, and two documents that differ only there are the same document.
+func normExt(doc []byte) []byte {
+	out := append([]byte{}, doc...)
+	for _, key := range []string{`"extensionsUsed":[`, `"extensionsRequired":[`} {
+		i := bytes.Index(out, []byte(key))
+		if i < 0 {
+			continue
+		}
+		start := i + len(key)
+		end := bytes.IndexByte(out[start:], ']')
+		if end < 0 {
+			continue
+		}
+		items := strings.Split(string(out[start:start+end]), ",")
+		sort.Strings(items)
+		copy(out[start:], strings.Join(items, ","))
+	}
+	return out
 }
